@@ -304,9 +304,10 @@ impl<'l, T: Debug> OrderedLocalQueue<'l, T> {
 
     fn push_to_global(&self, priority: c_longlong, item: T) {
         //把本地队列的一半放到全局队列
-        let count = self.local_len() / 2;
+        let mut count = self.local_len() / 2;
         let mut done = 0;
         while done < count {
+            let before = done;
             for entry in self.queue.iter().rev() {
                 if done >= count {
                     break;
@@ -315,6 +316,12 @@ impl<'l, T: Debug> OrderedLocalQueue<'l, T> {
                     self.shared.push_with_priority(*entry.key(), item);
                     done += 1;
                 }
+            }
+            if done == before {
+                // siblings have stolen from this queue and nothing is left to move,
+                // the counter was stale: the queue really held `done` items
+                self.len.store(done, Ordering::Release);
+                count = done;
             }
         }
         // refresh count
